@@ -169,8 +169,18 @@ def read_model_initial_conditions(
     typestr = InitWC.wc_type
     methodstr = InitWC.method
 
-    depth_layer = InitWC.depth_layer
-    datapoints = InitWC.value
+    depth_layer = list(InitWC.depth_layer)
+    datapoints = list(InitWC.value)
+
+    if methodstr == "Layer":
+        # a layer that is not listed takes the last request given (the Depth
+        # method likewise extends its last point to the bottom of the profile):
+        # no compartment is left without an initial water content
+        listed = [int(layer) for layer in depth_layer]
+        for layer in range(1, int(ParamStruct.Soil.nLayer) + 1):
+            if layer not in listed:
+                depth_layer.append(layer)
+                datapoints.append(datapoints[-1])
 
     values = np.zeros(len(datapoints))
 
